@@ -4,7 +4,7 @@ import functools
 import json
 
 from gen import c08_memo, c08_state
-from lib import c08_sessions as S, framework as fw
+from lib import c08_sessions as S, framework as fw, runner
 
 META = {
     'props': 'Props/C08.v',
@@ -335,6 +335,13 @@ def correspondence(ctx, proofs_ok=True):
     n = 96 if boost else (48 if ctx.quick else 600)
     lo, hi = (12, 40) if ctx.quick else (20, 60)   # not through ctx.n: it scales numbers
     sessions += [S.gen_session(rnd, ok_ids, bad_ids, rnd.randint(lo, hi), seeds, mixes, **extra) for _ in range(n)]
+    # hash-seed sweep: single requests in fresh processes under further hash seeds, for the inputs whose outcome hinges
+    # on an iteration order (both forms of a parameter given) and two of the inputs that leave most parameters to defaults
+    both = [contents.index(runner.params_to_text(p)) for p in S.BOTH_FORMS]
+    sweep_seeds = [str(rnd.randrange(2, 2 ** 32)) for _ in range(6 if ctx.quick else 24)]
+    sessions += [{'ndirs': S.NDIRS, 'npaths': 1, 'cwd': 0, 'argv': ['u0'], 'hashseed': sd, 'part': 'hashseed-sweep',
+                  'ops': [['newclient', False], ['write', 0, c], ['get', 0, 0]]}
+                 for c in both + [x for x in ok_ids if x not in both][-2:] for sd in sweep_seeds[:len(sweep_seeds) if c in both else 2]]
     batch = 240
     for lo in range(0, len(sessions), batch):
         _, mh = evaluate(ctx, 'histories', sessions[lo:lo + batch], contents, refs, tag=f'h{lo // batch}')
